@@ -1,6 +1,7 @@
 from vlib.runner import KaniOb
 ASSUMPTIONS = [
     "decidable half: panic-freedom over all f64 bit patterns (NaN, infinities, subnormals included), saturation side, sign, canonical results, exactness of whole nanosecond counts below 2^53, finiteness/sign/monotonicity of to_seconds/to_unit",
+    "quick tier: units ns, us, ms, s, day (measured 20-290 s each); minute, hour, week, century (350 s to > 15 min) and the relational monotonicity of to_seconds (> 25 min) run in the thorough tier",
     "ulp bounds (`within a few units in the last place`) need exact real arithmetic next to IEEE semantics and are outside; Duration x f64 with a non-integer factor (decimal-precision search loop with powi: >= 34 iterations for finite inputs) is outside except for integer-valued factors",
     "Unit x f64: Kani decides the float half with the two integer constructors replaced by recording stubs (kani::stub); their contracts (count = k, count = clamp(k)) are the C02 obligations c02_from_truncated_nanoseconds / c02_from_total_nanoseconds, decided on the real code at full width and re-run as part of this check",
     "durations below -1 century as operands of Duration x f64 are excluded (open finding KF-TOTALNS)",
@@ -13,7 +14,8 @@ def obligations(tier, seed):
         per_unit.append(KaniOb("c18", f"c18_unit_mul_f64_{u}", f"Unit({u}) x f64 and f64 x Unit over ALL f64 bit patterns: never panics; the nanosecond count is the IEEE product truncated toward zero (i64 / i128 cast split, thresholds), "
                "a bound only beyond the range and on the side of the sign, infinities to the bounds; integer constructors through their C02 contracts (recording stubs)",
                ["impl Mul<f64> for Unit", "impl Mul<Unit> for f64", "Duration::from_truncated_nanoseconds (contract)", "Duration::from_total_nanoseconds (contract)"],
-               "2^64 f64 bit patterns (NaN, infinities, subnormals included), one unit per harness", tq=900, covers=2))
+               "2^64 f64 bit patterns (NaN, infinities, subnormals included), one unit per harness", tq=1800, tt=7200, covers=2,
+               tier="quick" if u in ("ns", "us", "ms", "s", "d") else "thorough"))
     import props.c02
     contracts = []
     for o in props.c02.obligations(tier, seed):
@@ -24,7 +26,7 @@ def obligations(tier, seed):
         KaniOb("c18", "c18_from_unit_constructors", "Duration::from_days/hours/seconds/milliseconds/microseconds/nanoseconds and the f64 TimeUnits helpers are x * Unit::<unit> for every finite f64",
                ["Duration::from_days .. from_nanoseconds", "impl TimeUnits for f64"], "every finite f64", tq=1800),
         KaniOb("c18", "c18_nanoseconds_exact", "whole nanosecond counts |k| < 2^53 as f64 convert exactly", ["impl Mul<f64> for Unit (Nanosecond)"], "every integer |k| < 2^53", tq=900),
-        KaniOb("c18", "c18_to_seconds_monotone", "to_seconds: finite, non-decreasing within a century, sign", ["Duration::to_seconds"], "every i16 century x all ordered pairs of nanosecond fields", tq=1500),
+        KaniOb("c18", "c18_to_seconds_monotone", "to_seconds: finite, non-decreasing within a century, sign", ["Duration::to_seconds"], "every i16 century x all ordered pairs of nanosecond fields", tq=7200, tt=14400, tier="thorough"),
         KaniOb("c18", "c18_to_unit_total", "to_unit: finite, sign of to_seconds, 9 units", ["Duration::to_unit", "Unit::from_seconds", "Unit::in_seconds"], "all canonical durations x 9 units", tq=1200),
         KaniOb("c18", "c18_duration_mul_f64_integer_factor", "Duration x f64 with an integer-valued factor |k| <= 1024: no panic, canonical, x0 and x1 exact",
                ["impl Mul<f64> for Duration", "Duration::total_nanoseconds", "Duration::from_total_nanoseconds"], "durations in centuries -1..110 x integer factors |k| <= 1024; unwind 3", tq=1500),
